@@ -8,7 +8,10 @@
 #                     digit accumulators saturate, debug and release builds behave identically; `profile="debug"` on
 #                     the impl_* side still selects the debug harness)
 #   impl_rule(files)  files = [[(pattern, flags), ...], ...]  one JS file per entry, one `new RegExp("..","..");`
-#                     per line, linted with only no-invalid-regexp -> per file: list of 0/1  or ("panic", msg)
+#                     per line, linted with only no-invalid-regexp -> per file: list of 0/1  or ("panic", msg).
+#                     flags = None means "second argument is not a string literal" (`new RegExp("..", flagsVar);`:
+#                     flags unknown, the rule reports only if the pattern is invalid in both modes); flags = "" is
+#                     written alternately `new RegExp("..", "")` and `new RegExp("..")` (both = Some("") in the rule)
 #   model_rule(files) -> per file: list of 0 | 1 | 2 (panic) | 3 (fuel) | 4 (not reached after a panic)
 #   v8_verdicts(cases) cases = [(pattern, flags), ...] -> list of True (throws SyntaxError) / False / None (other)
 #   compare_all(tier, seed) -> dict (see bottom)
@@ -286,8 +289,20 @@ def js_string(s):
     return "".join(out)
 
 
+def js_line(k, p, f):
+    if f is None:
+        return "new RegExp(%s, flagsVar);\n" % js_string(p)
+    if f == "" and k % 2 == 1:
+        return "new RegExp(%s);\n" % js_string(p)
+    return "new RegExp(%s, %s);\n" % (js_string(p), js_string(f))
+
+
 def js_file(items):
-    return "".join("new RegExp(%s, %s);\n" % (js_string(p), js_string(f)) for p, f in items)
+    return "".join(js_line(k, p, f) for k, (p, f) in enumerate(items))
+
+
+def enc_optstr(f):
+    return "0" if f is None else "1 " + enc_str(f)
 
 
 # ---------------------------------------------------------------------------------------------------------
@@ -347,13 +362,13 @@ def model_flags(flag_strings):
 
 
 def model_rule(files, debug=False):
-    lines = ["%d %d %s" % (1 if debug else 0, len(items), " ".join("%s %s" % (enc_str(p), enc_str(f)) for p, f in items))
+    lines = ["%d %d %s" % (1 if debug else 0, len(items), " ".join("%s %s" % (enc_str(p), enc_optstr(f)) for p, f in items))
              for items in files]
     return [[int(x) for x in ln.split()] for ln in run_model("regex", "rule", lines)]
 
 
 def model_dirty(pairs, debug=False):
-    lines = ["%d %s %s" % (1 if debug else 0, enc_str(p), enc_str(f)) for p, f in pairs]
+    lines = ["%d %s %s" % (1 if debug else 0, enc_str(p), enc_optstr(f)) for p, f in pairs]
     return [int(ln.split()[0]) for ln in run_model("regex", "dirty", lines)]
 
 
@@ -361,7 +376,7 @@ def impl_rule(files, profile="release"):
     cases = []
     for items in files:
         for p, f in items:
-            if has_surrogate(p) or has_surrogate(f):
+            if has_surrogate(p) or has_surrogate(f or ""):
                 raise Infra("lone surrogate in a pattern/flags for the Rust side")
         cases.append({"src": js_file(items), "media": "js", "rules": ["no-invalid-regexp"]})
     res = run_vh("lint", cases, profile=profile)
@@ -435,45 +450,23 @@ def v8_verdicts(cases, jobs=None):
 
 
 # ---------------------------------------------------------------------------------------------------------
-# V8 disagreement classes (DESIGN.md C12 pre-assessment)
+# V8 as the oracle of the ECMAScript grammar
 # ---------------------------------------------------------------------------------------------------------
-# retired (repaired in /repo by fix: commits, a recurrence would show up as unclassified):
-#   "i64_wraparound_in_digits"  (digit accumulators now saturate), "panic_group_name_at_end_of_input" (`(?<a`)
-KNOWN_V8_CLASSES = [
-    "noflags_reports_only_if_invalid_in_both_modes",
-    "utf16_length_cut_without_u",
-    "nul_escape_followed_by_digit_under_u",
-    "property_tables_older_than_v8",
-    "class_negation_caret_parsed_as_class_atom",
-    "v8_clamps_quantifier_bounds_to_2_31",      # V8 deviates from the specification here, the implementation does not
-    "flag_v_outside_property",
-]
-
-
-def utf16_units(s):
-    out = []
-    for c in s:
-        o = ord(c)
-        if o < 0x10000:
-            out.append(o)
-        else:
-            o -= 0x10000
-            out += [0xD800 + (o >> 10), 0xDC00 + (o & 0x3FF)]
-    return out
-
-
-def truncated_as_seen(pattern):
-    """What the validator sees without `u`: the first chars().count() UTF-16 units (as a JS string)."""
-    u = utf16_units(pattern)[:len(pattern)]
-    return "".join(chr(x) for x in u)
-
+# Known disagreement class (a genuine finding that is not small to repair):
+#   property_tables_older_than_v8   unicode.rs carries the ES2020 Script/Script_Extensions/binary property tables; V8
+#                                   (node 20, Unicode 15) knows later values (`\p{scx=Kawi}`, `\p{Script=Vithkuqi}`)
+# Oracle exception (NOT a disagreement of the implementation with the specification):
+#   v8_clamps_quantifier_bounds_to_2_31   V8 clamps quantifier bounds to 2^31-1 before comparing them, so it accepts
+#                                   `a{4294967296,4294967295}`, which the specification (and the implementation) reject.
+# Retired (repaired in /repo by fix: commits; a recurrence surfaces as unclassified): i64_wraparound_in_digits,
+#   panic_group_name_at_end_of_input, noflags_reports_only_if_invalid_in_both_modes, utf16_length_cut_without_u,
+#   nul_escape_followed_by_digit_under_u, class_negation_caret_parsed_as_class_atom.
+KNOWN_V8_CLASSES = ["property_tables_older_than_v8"]
+V8_ORACLE_EXCEPTIONS = ["v8_clamps_quantifier_bounds_to_2_31"]
 
 _LONG_DEC = re.compile(r"[0-9]{19,}")
 _LONG_HEX = re.compile(r"\\u\{[0-9a-fA-F]{16,}")
-_NUL_DIGIT = re.compile(r"\\0[0-9]")
-_PROP = re.compile(r"\\[pP]\{")
-_GROUP_NAME_OPEN = re.compile(r"(\(\?<(?![=!])|\\k<)[^>]*$")
-_NEG_CLASS_DASH = re.compile(r"\[\^-")
+_PROP = re.compile(r"\\[pP]\{([A-Za-z_0-9=]*)\}")
 _BOUNDS = re.compile(r"\{([0-9]+),([0-9]+)\}")
 
 
@@ -481,68 +474,83 @@ def _v8_clamped_bounds(pattern):
     return any(int(a) > int(b) >= 2147483647 for a, b in _BOUNDS.findall(pattern))
 
 
+def v8_expected(flags, v8_n, v8_u):
+    """What the property demands of the rule, with V8 as the grammar: literal flags -> the mode selected by `u`;
+    unknown flags (None) -> report only if invalid in both modes."""
+    if flags is None:
+        return bool(v8_n) and bool(v8_u)
+    return v8_u if "u" in flags else v8_n
+
+
+def _fix_bounds(pattern):
+    return _BOUNDS.sub(lambda m: "{1,2}" if int(m.group(1)) > int(m.group(2)) >= 2147483647 else m.group(0), pattern)
+
+
+def _fix_props(pattern):
+    return re.sub(r"\\[pP]\{[A-Za-z_0-9=]*\}", lambda m: m.group(0)[:2] + "{L}", pattern)
+
+
 def classify_v8_disagreement(pattern, flags, impl_reports, v8_throws, aux=None):
-    """impl_reports: True/False, or "panic".  aux (optional, computed by aux_for when absent):
-    {impl_u, impl_n: True=invalid, "panic"; v8_u, v8_n: True=throws; v8_trunc_n: V8 on the truncated pattern, no u;
-     v8_caret_u, v8_caret_n: V8 on the pattern with every `[^` rewritten `[\\^`}."""
-    if impl_reports is not True and impl_reports is not False and impl_reports != "panic":
+    """Class name of a disagreement between the rule's decision and V8, or None (= unclassified, or no disagreement).
+    impl_reports: True/False or "panic".  v8_throws: the expected decision (v8_expected).  aux (computed by aux_for
+    when absent): per-mode verdicts {impl_u, impl_n, v8_u, v8_n} (True = invalid) of the pattern, of the pattern with
+    the clamped bounds rewritten to {1,2} (b_*), and additionally every property escape rewritten to \p{L} (bp_*).
+    A class is only assigned when the rewrite that removes the suspected cause makes implementation and V8 agree."""
+    if impl_reports == "panic" or impl_reports not in (True, False):
         return None
-    if "v" in flags:
-        return "flag_v_outside_property"
-    if impl_reports != "panic" and bool(impl_reports) == bool(v8_throws):
+    if bool(impl_reports) == bool(v8_throws):
         return None
     if aux is None:
         aux = aux_for([(pattern, flags)])[0]
-    has_u = "u" in flags
-    if impl_reports == "panic" or aux["impl_n"] == "panic" or aux["impl_u"] == "panic":
-        return None      # no panic is a known class any more
-    # which per-mode verdict of the implementation is at odds with V8?
-    mode_bad = {"u": aux["impl_u"] != aux["v8_u"], "n": aux["impl_n"] != aux["v8_n"]}
-    relevant = ["u"] if has_u else ["n"] if flags else ["u", "n"]
-    if flags == "" and not mode_bad["n"]:
-        # the non-u verdict agrees with V8; the rule stays silent because the pattern is valid with u
-        if v8_throws and not impl_reports and aux["impl_n"] is True and aux["impl_u"] is False:
-            return "noflags_reports_only_if_invalid_in_both_modes"
+    if "panic" in (aux["impl_u"], aux["impl_n"]):
         return None
+    relevant = ["u", "n"] if flags is None else ["u"] if "u" in flags else ["n"]
     causes = set()
     for m in relevant:
-        if not mode_bad[m]:
+        if aux["impl_" + m] == aux["v8_" + m]:
             continue
-        if m == "n" and any(ord(c) > 0xFFFF for c in pattern) and aux.get("v8_trunc_n") == aux["impl_n"]:
-            causes.add("utf16_length_cut_without_u")
-        elif _v8_clamped_bounds(pattern) and aux["impl_" + m] is True:
+        if _v8_clamped_bounds(pattern) and aux["impl_" + m] is True and aux["b_impl_" + m] == aux["b_v8_" + m]:
             causes.add("v8_clamps_quantifier_bounds_to_2_31")
-        elif "[^" in pattern and aux.get("v8_caret_" + m) == aux["impl_" + m]:
-            # V8 agrees with the implementation once every `[^` is written `[\^` (the way the implementation reads it)
-            causes.add("class_negation_caret_parsed_as_class_atom")
-        elif m == "u" and _NUL_DIGIT.search(pattern):
-            causes.add("nul_escape_followed_by_digit_under_u")
-        elif m == "u" and _PROP.search(pattern) and aux["impl_u"] is True and aux["v8_u"] is False:
+        elif m == "u" and _PROP.search(pattern) and aux["impl_u"] is True and aux["v8_u"] is False \
+                and aux["bp_impl_u"] == aux["bp_v8_u"]:
+            # (a pattern that has both a clamped bound and a newer property value lands here too)
             causes.add("property_tables_older_than_v8")
         else:
             causes.add(None)
     if None in causes or not causes:
-        # flags == "" and only the u verdict is off while the decision differs: still the both-modes rule at work
         return None
     return sorted(causes)[0]
 
 
 def aux_for(pairs):
-    """per-mode verdicts of the implementation (hook) and of V8 for each (pattern, flags)."""
-    pats = [p for p, _ in pairs]
-    iu = impl_seq([[(p, True)] for p in pats])
-    inn = impl_seq([[(p, False)] for p in pats])
-    v8u = v8_verdicts([(p, "u") for p in pats])
-    v8n = v8_verdicts([(p, "") for p in pats])
-    v8t = v8_verdicts([(truncated_as_seen(p), "") for p in pats])
-    caret = [p.replace("[^", "[\\^") for p in pats]
-    v8cu = v8_verdicts([(p, "u") for p in caret])
-    v8cn = v8_verdicts([(p, "") for p in caret])
+    """per-mode verdicts of the implementation (hook) and of V8 for each (pattern, flags) and its two rewrites."""
+    out = [dict() for _ in pairs]
+    for prefix, fn in (("", lambda p: p), ("b_", _fix_bounds), ("bp_", lambda p: _fix_props(_fix_bounds(p)))):
+        pats = [fn(p) for p, _ in pairs]
+        iu = impl_seq([[(p, True)] for p in pats])
+        inn = impl_seq([[(p, False)] for p in pats])
+        v8u = v8_verdicts([(p, "u") for p in pats])
+        v8n = v8_verdicts([(p, "") for p in pats])
 
-    def iv(r):
-        return "panic" if isinstance(r, tuple) else (r[0][0] == "err")
-    return [{"impl_u": iv(a), "impl_n": iv(b), "v8_u": c, "v8_n": d, "v8_trunc_n": e, "v8_caret_u": f, "v8_caret_n": g}
-            for a, b, c, d, e, f, g in zip(iu, inn, v8u, v8n, v8t, v8cu, v8cn)]
+        def iv(r):
+            return "panic" if isinstance(r, tuple) else (r[0][0] == "err")
+        for o, a, b, c, d in zip(out, iu, inn, v8u, v8n):
+            o.update({prefix + "impl_u": iv(a), prefix + "impl_n": iv(b), prefix + "v8_u": c, prefix + "v8_n": d})
+    return out
+
+
+def signature(pattern):
+    """short, input-independent-ish signature of a pattern for naming an unclassified disagreement: the sequence of
+    construct kinds that occur (so that different defects get different class names)."""
+    kinds = []
+    for rx, name in ((r"\\[pP]\{", "prop"), (r"\\k<", "kref"), (r"\(\?<[^=!]", "named"), (r"\(\?<[=!]", "lookbehind"),
+                     (r"\(\?[=!]", "lookahead"), (r"\\u\{", "ubrace"), (r"\\u[0-9a-fA-F]{4}", "u4"), (r"\\x", "hex"),
+                     (r"\\c", "ctrl"), (r"\\[0-9]", "decesc"), (r"\[\^", "negclass"), (r"\[", "class"),
+                     (r"\{[0-9]*,?[0-9]*\}?", "braces"), (r"[*+?]", "quant"), (r"\\[^pPkuxc0-9]", "idesc"),
+                     (r"[\U00010000-\U0010FFFF]", "astral"), (r"\(", "group"), (r"\|", "alt")):
+        if re.search(rx, pattern):
+            kinds.append(name)
+    return "+".join(kinds[:4]) or "plain"
 
 
 # ---------------------------------------------------------------------------------------------------------
@@ -615,23 +623,39 @@ def compare_flags(flag_strings):
 
 
 def compare_v8(decisions):
-    """decisions: ((pattern, flags), True/False/"panic").  Returns (n_compared, {class: [witness...]}, unclassified)."""
+    """decisions: ((pattern, flags), True/False/"panic") in a deterministic order.  flags None = unknown flags.
+    Returns (n_compared, {class: [witness...]}, unclassified, n_oracle_exceptions).  Deterministic for a given input."""
     seen, uniq = set(), []
     for key, d in decisions:
-        if key not in seen and "v" not in key[1]:
+        if key not in seen and "v" not in (key[1] or ""):       # flag v is outside the property
             seen.add(key); uniq.append((key, d))
-    v8 = v8_verdicts([k for k, _ in uniq])
-    dis = [(k, d, v) for (k, d), v in zip(uniq, v8) if v is None or d == "panic" or bool(d) != v]
-    classes, unknown = {}, []
+    pats = sorted({k[0] for k, _ in uniq})
+    v8n = dict(zip(pats, v8_verdicts([(p, "") for p in pats])))
+    v8u = dict(zip(pats, v8_verdicts([(p, "u") for p in pats])))
+    # flags other than u do not change validity in V8 when they are valid; invalid flags always throw
+    fl = sorted({k[1] for k, _ in uniq if k[1] is not None})
+    flag_bad = dict(zip(fl, v8_verdicts([("a", f) for f in fl])))
+    dis = []
+    for k, d in uniq:
+        p, f = k
+        if None in (v8n[p], v8u[p]):
+            dis.append((k, d, None)); continue
+        exp = True if (f is not None and flag_bad[f]) else v8_expected(f, v8n[p], v8u[p])
+        if d == "panic" or bool(d) != exp:
+            dis.append((k, d, exp))
+    classes, unknown, nexc = {}, [], 0
     if dis:
         auxs = aux_for([k for k, _, _ in dis])
         for (k, d, v), aux in zip(dis, auxs):
             c = classify_v8_disagreement(k[0], k[1], d, v, aux) if v is not None else None
-            if c is None:
-                unknown.append({"pattern": k[0], "flags": k[1], "impl": d, "v8_throws": v, "aux": aux})
+            if c in V8_ORACLE_EXCEPTIONS:
+                nexc += 1           # V8 deviates from the specification here: not counted against the implementation
+            elif c is None:
+                unknown.append({"pattern": k[0], "flags": k[1], "impl": d, "v8_expected": v, "aux": aux,
+                                "signature": signature(k[0])})
             else:
-                classes.setdefault(c, []).append({"pattern": k[0], "flags": k[1], "impl": d, "v8_throws": v})
-    return len(uniq), classes, unknown
+                classes.setdefault(c, []).append({"pattern": k[0], "flags": k[1], "impl": d, "v8_expected": v})
+    return len(uniq), classes, unknown, nexc
 
 
 def compare_history(seqs):
@@ -696,7 +720,9 @@ def compare_all(tier="quick", seed=1):
     pairs += [(p, rng.choice(["g", "gi", "y", "s", "d", "imsuy", "v", "uv"])) for p in rng.sample(ex + sampled, min(20000, len(ex)))]
     flag_pool = [gen_flags(rng) for _ in range(400)]
     pairs += [(p, rng.choice(flag_pool)) for p in structured] + [(p, "") for p in structured[:len(structured) // 2]]
-    pairs = [(p, f) for p, f in pairs if not has_surrogate(f)]
+    # unknown flags (second argument not a literal): the both-modes rule
+    pairs += [(p, None) for p in rng.sample(ex + sampled + astral, min(30000, len(ex))) + structured[:len(structured) // 2]]
+    pairs = [(p, f) for p, f in pairs if not has_surrogate(f or "")]
     n, m, flat = compare_rule(_chunks(pairs, 32))
     counts["rule_items"] = n; mism += m
     log("[regex] rule: %d items, %d mismatches, %.1fs" % (n, len(m), time.time() - t0))
@@ -728,8 +754,11 @@ def compare_all(tier="quick", seed=1):
         counts["debug_seq_items"] = n; mism += m
 
     # ---- (6) the specification side: V8
-    nv, classes, unknown = compare_v8(flat)
+    nv, classes, unknown, nexc = compare_v8(flat)
     counts["v8_compared"] = nv
+    counts["v8_oracle_exceptions"] = nexc
+    counts["rule_reports"] = sum(1 for _, d in flat if d is True)
+    counts["rule_unknown_flags_items"] = sum(1 for (p, f), _ in flat if f is None)
     res = {
         "tier": tier, "seed": seed, "counts": counts, "mismatches": mism, "history": hist, "dirty": dirty_bad,
         "v8_classes": {c: {"n": len(w), "witness": min(w, key=lambda x: (len(x["pattern"]), x["pattern"]))} for c, w in classes.items()},
